@@ -178,6 +178,13 @@ def check(prog, rep, tier):
                     'returns %r after the header error%s' % (ret, ', then dispatches %s' % [e[1] for e in after] if after else ''),
                     'return False, nothing dispatched')
                 continue
+            if cls == 'OPEN' and any(f_.startswith('short-unpack@') and f_.endswith('Open.parse') for f_ in r.flags) \
+                    and not any(i_[0] == '!BHHIB' for i_ in r.st.syminfo.values()):
+                # a type-1 message too short for the fixed part of an OPEN: a framing (length) error, RFC 4271 6.1
+                from .. import profile as P
+                okp, probs, alt = P.evaluate(P.hdr_cell(1, 2, state), r)
+                put('R04.f', 'reaction:SHORT_OPEN@%s' % state, okp, r, '; '.join(probs), alt)
+                continue
             if cls in ('AMBIGUOUS', 'AMBIGUOUS_LEN'):
                 put('R04.d', 'ambiguous@%s' % state, False, r,
                     'a path is neither rejected nor within [19,4096] / a known type: len %s type %s' % (
